@@ -204,10 +204,20 @@ pub struct Cfg {
     /// Direct mode: call `start_with(component)` on the timeline before handing it over.
     pub initial_start_with: bool,
     pub start_disabled: bool,
+    /// Selector mode only: the selector (and chain) is not spawned with the entity but inserted
+    /// later by a `BOp::InsertSelector` operation.
+    pub selector_inserted_later: bool,
+    /// Selector mode only: the animator is created with `with_timeline(tls[initial_tl])` instead
+    /// of `Animator::new()`, i.e. it may already be animating when the selector first acts.
+    pub selector_animator_prebuilt: bool,
     pub second: Option<OtherSpec>,
     /// A second animated entity: plain `Animator<Target>` (no selector, no chain) playing
     /// `tls[index]`, spawned before or after the main entity.
     pub extra_entity: Option<(usize, bool)>,
+    /// An orphan: an entity with an enabled `Animator<Target>` (playing `tls[index]`) but no
+    /// `Target` component (yet); spawned before (`true`) or after the other entities. The plugin
+    /// must simply skip it - every other entity behaves as if it were not there.
+    pub orphan: Option<(usize, bool)>,
     /// A mirror entity: configured exactly like the main entity and given exactly the same
     /// operations; by symmetry it must be indistinguishable from the main entity in every frame.
     /// `Some(true)` = spawned before the main entity.
@@ -223,6 +233,9 @@ pub enum BOp {
     Enable(bool),
     Reset,
     SetTimeline { tl: usize, reset: bool, start_with: bool },
+    /// Insert the `AnimationSelector` (and chain) now - used when the configuration says the
+    /// selector is attached to an already existing, possibly already animating entity
+    InsertSelector,
     /// `Time::pause()` / `Time::unpause()`: while paused the app clock's delta is zero although
     /// wall time passes
     PauseTime(bool),
@@ -303,7 +316,16 @@ pub fn scn_to_json(s: &BScn) -> Json {
         .set("initial_timeline", c.initial_tl.map(Json::from).unwrap_or(Json::Null))
         .set("initial_start_with", c.initial_start_with)
         .set("start_disabled", c.start_disabled)
+        .set("selector_inserted_later", c.selector_inserted_later)
+        .set("selector_animator_prebuilt", c.selector_animator_prebuilt)
         .set("second_animator", c.second.as_ref().map(other_to_json).unwrap_or(Json::Null))
+        .set(
+            "orphan_animator_without_target",
+            match c.orphan {
+                Some((tl, before)) => Json::obj().set("timeline", tl).set("spawned_first", before),
+                None => Json::Null,
+            },
+        )
         .set(
             "mirror_entity_spawned_before_main",
             match c.mirror {
@@ -344,6 +366,7 @@ pub fn scn_to_json(s: &BScn) -> Json {
                         .set("set_timeline", *tl)
                         .set("then_reset", *reset)
                         .set("start_with_component", *start_with),
+                    BOp::InsertSelector => Json::obj().set("insert_selector", true),
                     BOp::PauseTime(b) => Json::obj().set("pause_app_clock", *b),
                     BOp::TimeSpeed(x) => Json::obj().set("app_clock_speed", *x),
                 })
@@ -404,9 +427,24 @@ pub fn scn_from_json(j: &Json) -> Result<BScn, String> {
         },
         initial_start_with: c.req("initial_start_with")?.as_bool()?,
         start_disabled: c.req("start_disabled")?.as_bool()?,
+        selector_inserted_later: match c.get("selector_inserted_later") {
+            Some(v) => v.as_bool()?,
+            None => false,
+        },
+        selector_animator_prebuilt: match c.get("selector_animator_prebuilt") {
+            Some(v) => v.as_bool()?,
+            None => false,
+        },
         second: match c.req("second_animator")? {
             Json::Null => None,
             v => Some(other_from_json(v)?),
+        },
+        orphan: match c.get("orphan_animator_without_target") {
+            None | Some(Json::Null) => None,
+            Some(v) => Some((
+                v.req("timeline")?.as_i64()? as usize,
+                v.req("spawned_first")?.as_bool()?,
+            )),
         },
         mirror: match c.get("mirror_entity_spawned_before_main") {
             None | Some(Json::Null) => None,
@@ -440,6 +478,8 @@ pub fn scn_from_json(j: &Json) -> Result<BScn, String> {
                     ops.push(BOp::SetKey(k.as_i64()? as u8));
                 } else if let Some(b) = op.get("enable") {
                     ops.push(BOp::Enable(b.as_bool()?));
+                } else if op.get("insert_selector").is_some() {
+                    ops.push(BOp::InsertSelector);
                 } else if let Some(b) = op.get("pause_app_clock") {
                     ops.push(BOp::PauseTime(b.as_bool()?));
                 } else if let Some(x) = op.get("app_clock_speed") {
@@ -499,6 +539,46 @@ pub fn update_is_single_threaded(app: &App) -> bool {
         .unwrap_or(false)
 }
 
+/// Attaches the selector (and chain) described by the configuration to an entity.
+pub fn insert_selector(cfg: &Cfg, e: &mut bevy::ecs::world::EntityMut) {
+    let mut b = AnimationSelectorBuilder::<Key, Target>::new().initial_key(cfg.initial_key);
+    for (k, tl) in cfg.keys.iter().enumerate() {
+        if let Some(i) = tl {
+            // alternate between plain and merged timelines in the selector map
+            if cfg.tls[*i].parts.len() == 1 && k % 2 == 0 {
+                b = b.add(k as Key, build_target_tl(&cfg.tls[*i].parts[0]));
+            } else {
+                b = b.add(k as Key, build_target_merged(&cfg.tls[*i]));
+            }
+        }
+    }
+    if cfg.keys.len() == 4 {
+        // the plain constructor instead of the builder
+        let built = b.build();
+        e.insert(AnimationSelector::<Key, Target>::new(built.timelines, built.timeline_key));
+    } else {
+        e.insert(b.build());
+    }
+    if let Some(pairs) = &cfg.chain {
+        // every public way of building a chain is used, depending on its shape
+        if pairs.len() == 1 && pairs[0].1 == Key::default() {
+            e.insert(AnimationChain::<Key>::reset_after(pairs[0].0));
+        } else if pairs.len() % 2 == 0 {
+            let mut chain = AnimationChain::<Key>::new();
+            for (from, to) in pairs {
+                chain.next_keys.insert(*from, *to);
+            }
+            e.insert(chain);
+        } else {
+            let mut cb = AnimationChainBuilder::<Key>::new();
+            for (from, to) in pairs {
+                cb = cb.add(*from, *to);
+            }
+            e.insert(cb.build());
+        }
+    }
+}
+
 pub fn build_world(cfg: &Cfg) -> SimWorld {
     let mut app = App::new();
     let base = Instant::now();
@@ -554,71 +634,50 @@ pub fn build_world(cfg: &Cfg) -> SimWorld {
                 .id()
         })
     };
+    let spawn_orphan = |app: &mut App| {
+        if let Some((tl, _)) = cfg.orphan {
+            // two archetypes: with and without an unrelated component
+            app.world.spawn(Animator::<Target>::with_timeline(build_target_merged(&cfg.tls[tl])));
+            app.world.spawn((
+                Bystander { v: 1.0 },
+                Animator::<Target>::with_timeline(build_target_merged(&cfg.tls[tl])),
+            ));
+        }
+    };
+    if matches!(cfg.orphan, Some((_, true))) {
+        spawn_orphan(&mut app);
+    }
     let mut extra = None;
     if matches!(cfg.extra_entity, Some((_, true))) {
         extra = spawn_extra(&mut app);
     }
     let spawn_main = |app: &mut App| -> Entity {
         let component = component.clone();
-        let mut animator: Animator<Target> = if cfg.selector {
+        let prebuilt = |component: &Target| match cfg.initial_tl {
+            Some(i) => {
+                let mut tl = build_target_merged(&cfg.tls[i]);
+                if cfg.initial_start_with {
+                    tl.start_with(component);
+                }
+                Animator::with_timeline(tl)
+            }
+            None => Animator::new(),
+        };
+        let mut animator: Animator<Target> = if cfg.selector && !cfg.selector_animator_prebuilt {
             if cfg.initial_key % 2 == 0 {
                 Animator::new()
             } else {
                 Animator::default()
             }
         } else {
-            match cfg.initial_tl {
-                Some(i) => {
-                    let mut tl = build_target_merged(&cfg.tls[i]);
-                    if cfg.initial_start_with {
-                        tl.start_with(&component);
-                    }
-                    Animator::with_timeline(tl)
-                }
-                None => Animator::new(),
-            }
+            prebuilt(&component)
         };
         if cfg.start_disabled {
             animator = animator.as_disabled();
         }
         let mut e = app.world.spawn((component, animator));
-        if cfg.selector {
-            let mut b = AnimationSelectorBuilder::<Key, Target>::new().initial_key(cfg.initial_key);
-            for (k, tl) in cfg.keys.iter().enumerate() {
-                if let Some(i) = tl {
-                    // alternate between plain and merged timelines in the selector map
-                    if cfg.tls[*i].parts.len() == 1 && k % 2 == 0 {
-                        b = b.add(k as Key, build_target_tl(&cfg.tls[*i].parts[0]));
-                    } else {
-                        b = b.add(k as Key, build_target_merged(&cfg.tls[*i]));
-                    }
-                }
-            }
-            if cfg.keys.len() == 4 {
-                // the plain constructor instead of the builder
-                let built = b.build();
-                e.insert(AnimationSelector::<Key, Target>::new(built.timelines, built.timeline_key));
-            } else {
-                e.insert(b.build());
-            }
-            if let Some(pairs) = &cfg.chain {
-                // every public way of building a chain is used, depending on its shape
-                if pairs.len() == 1 && pairs[0].1 == Key::default() {
-                    e.insert(AnimationChain::<Key>::reset_after(pairs[0].0));
-                } else if pairs.len() % 2 == 0 {
-                    let mut chain = AnimationChain::<Key>::new();
-                    for (from, to) in pairs {
-                        chain.next_keys.insert(*from, *to);
-                    }
-                    e.insert(chain);
-                } else {
-                    let mut cb = AnimationChainBuilder::<Key>::new();
-                    for (from, to) in pairs {
-                        cb = cb.add(*from, *to);
-                    }
-                    e.insert(cb.build());
-                }
-            }
+        if cfg.selector && !cfg.selector_inserted_later {
+            insert_selector(cfg, &mut e);
         }
         if let Some(o) = &cfg.second {
             e.insert((Other::default(), Animator::<Other>::with_timeline(build_other_tl(o))));
@@ -635,6 +694,9 @@ pub fn build_world(cfg: &Cfg) -> SimWorld {
     }
     if matches!(cfg.extra_entity, Some((_, false))) {
         extra = spawn_extra(&mut app);
+    }
+    if matches!(cfg.orphan, Some((_, false))) {
+        spawn_orphan(&mut app);
     }
     let bystander = app
         .world
